@@ -266,9 +266,10 @@ def run_churn(i):
         env = dict(TSAN_ENV) if tsan else {}
         env["OVNI_TRACEDIR"] = os.path.join(wd, "trace")
         env["OVNI_VERIF_DELAY"] = str(rng.randint(1, 10 ** 6))
-        if rng.random() < 0.3:
+        # build x overlap x OVNI_TMPDIR: every combination equally often
+        if (i // 4) % 2 == 1:
             env["OVNI_TMPDIR"] = os.path.join(wd, "tmp")
-        ovl = ["overlap"] if i % 4 >= 2 else []      # the lone thread is freed while the group initialises
+        ovl = ["overlap"] if (i // 2) % 2 == 1 else []      # the lone thread is freed while the group initialises
         r = core.run_retry([exe, str(rounds), str(k), str(nev)] + ovl, env=env, cwd=wd, timeout=300)
         if r.timeout:
             res["inconclusive"] = "churn driver timeout"; return res
@@ -336,7 +337,7 @@ def main(argv):
         for key, what, o in r["viol"]:
             chk.report(key, what, dict(o, case=r["i"], kind="race"))
     nchurn = starts = cstreams = 0
-    churn_cases = [] if chk.replay else list(range(16 if quick else 400))
+    churn_cases = [] if chk.replay else list(range(32 if quick else 480))
     for r in core.pmap(run_churn, churn_cases, jobs=max(2, core.NCPU // 4)):
         if r["inconclusive"]:
             chk.note_inconclusive(r["inconclusive"]); continue
